@@ -886,6 +886,30 @@ fn check_json(s: &JwkSpec, obs: &mut Obs) -> CheckResult {
     return Ok(());
   }
 
+  // The same key obtained through the JSON-proof-token library's key type (issuer keys of JPTs arrive that way),
+  // under both kty labels its untagged parameter enum lets through: whatever comes out of the conversion is a `Jwk`
+  // like any other.
+  if j.try_ec_params().is_ok() {
+    for label in ["EC", "OKP"] {
+      let mut foreign = value.clone();
+      if let Some(o) = foreign.as_object_mut() {
+        o.insert("kty".into(), json!(label));
+      }
+      let Ok(ext) = serde_json::from_value::<jsonprooftoken::jwk::key::Jwk>(foreign) else { continue };
+      for (how, ext) in [("as read", ext.clone()), ("its to_public()", ext.to_public().unwrap_or(ext))] {
+        match catch(|| Jwk::try_from(ext)) {
+          Ok(Ok(converted)) => {
+            obs.label("converted-from-jpt-jwk");
+            let cvia = format!("Jwk::try_from(jsonprooftoken Jwk read from {text} with kty {label}, {how})");
+            battery(&converted, &cvia, "kty-params-mismatch-after-jpt-conversion", &secret_list, false, obs)?;
+          }
+          Ok(Err(_)) => obs.label("jpt-jwk-conversion-refused"),
+          Err(p) => return Err(Viol::fixture(format!("Jwk::try_from(jsonprooftoken Jwk) panicked: {}", p.msg))),
+        }
+      }
+    }
+  }
+
   // From here on the key is coherent: kty() names the family of params().
   let family = fam_of_kty(j.kty());
 
